@@ -55,15 +55,20 @@ Theorem C01_phragmen_total : forall I P tb enum loads init,
 Proof. exact PhragmenP.phragmen_total. Qed.
 Print Assumptions C01_phragmen_total.
 
-(* wrappers, for ANY base rule meeting its contract: budget increase ... *)
+(* wrappers, for ANY base rule meeting its contract FROM THE ORIGINAL BUDGET UPWARDS (the contract "for every
+   budget" is unsatisfiable: C09rules_contract_all_budgets_unsatisfiable): budget increase ... *)
+From PB Require Props.C09rules.
 Theorem C01_increase_feasible : forall I init, feasible I init ->
+  forall step, 0 <= step ->
   forall R : Q -> Exhaustion.alloc,
-  (forall b, feasible (mkInst (costs I) b) (R b)) ->
-  (forall b, incl init (R b)) ->
-  forall stop step bound fuel k W,
+  (forall b, budget I <= b -> feasible (mkInst (costs I) b) (R b)) ->
+  (forall b, budget I <= b -> incl init (R b)) ->
+  forall stop bound fuel k W,
   Exhaustion.increase_res I R init stop step bound fuel = Some (k, W) -> feasible I W /\ incl init W.
-Proof. exact ExhaustionP.increase_res_feasible. Qed.
+Proof. exact C09rules.C09rules_increase_feasible_from_budget. Qed.
 Print Assumptions C01_increase_feasible.
+
+(* ... discharged for the three concrete rule models (Equal Shares, greedy, Phragmen): Props/C09rules.v *)
 
 (* ... and completion by rule combination *)
 Theorem C01_completion_feasible : forall I (rules : list (Exhaustion.alloc -> Exhaustion.alloc)),
